@@ -43,6 +43,21 @@ func c18Strs(v any) []string {
 	return nil
 }
 
+// grants first, validation last: a document the function ends up rejecting has already called access() and role()
+var c18GrantThenReject = c18Fn{"grant-then-reject", `function(doc){ channel(doc.y); if (doc.gu) { access(doc.gu, "H2"); } if (doc.ru) { role(doc.ru, "role:" + doc.rr); } if (doc.bad) { throw({forbidden: "bad"}); } }`, func(d map[string]any) ([]string, map[string][]string, map[string][]string, bool) {
+	if d["bad"] == true {
+		return nil, nil, nil, true
+	}
+	acc, rol := map[string][]string{}, map[string][]string{}
+	if gu, ok := d["gu"].(string); ok {
+		acc[gu] = []string{"H2"}
+	}
+	if ru, ok := d["ru"].(string); ok {
+		rol[ru] = c18Strs(d["rr"])
+	}
+	return c18Strs(d["y"]), acc, rol, false
+}}
+
 var c18Fns = []c18Fn{
 	{"chan-x", `function(doc){ channel(doc.x); }`, func(d map[string]any) ([]string, map[string][]string, map[string][]string, bool) {
 		return c18Strs(d["x"]), nil, nil, false
@@ -73,6 +88,7 @@ var c18Fns = []c18Fn{
 		}
 		return c18Strs(d["y"]), acc, nil, false
 	}},
+	c18GrantThenReject,
 }
 
 type c18Kind struct {
@@ -90,6 +106,7 @@ var c18Kinds = []c18Kind{
 	{Name: "two-channels", Body: `{"x":["A","C"],"y":["B"]}`},
 	{Name: "attachment", Body: `{"x":"A","y":"D"}`, Att: true},
 	{Name: "bad", Body: `{"x":"A","y":"B","bad":true,"gu":"u1","gc":"G"}`},
+	{Name: "bad-role", Body: `{"x":"C","y":"B","bad":true,"ru":"u1","rr":"r1"}`},
 }
 
 type c18Case struct {
@@ -372,7 +389,7 @@ func c18Run(t testing.TB, r *vreport.Report, c c18Case) {
 func TestVerifC18(t *testing.T) {
 	r := vreport.Begin("C18")
 	defer r.Finish(t)
-	r.Rule("corpora = subsets of size <= S of 7 document kinds (live, tombstoned, granting a channel, granting a role, two channels, with attachment, rejected by one of the functions) x ordered pairs of 5 sync-function templates (channel from field x, from field y, grants from fields, constant channel, reject-some with a different grant) x regenerate_sequences x {users loaded between the writes and the resync, or not}; real resync; Go mirror of the new function + differential against a fresh database + second resync; non-trivial = distinct (corpus, function pair, option)")
+	r.Rule("corpora = subsets of size <= S of 8 document kinds (live, tombstoned, granting a channel, granting a role, two channels, with attachment, two kinds rejected by some functions, one granting a channel and one a role; quick: all singles and the pairs among the granting / rejected kinds) x ordered pairs of 6 sync-function templates (channel from field x, from field y, grants from fields, constant channel, reject-some with a different grant, grant first and validate last) x regenerate_sequences x {users loaded between the writes and the resync, or not}; real resync; Go mirror of the new function + differential against a fresh database + second resync; non-trivial = distinct (corpus, function pair, option)")
 	r.Assume("conflicted documents are not part of the corpora (this server version cannot create them through REST); writes racing with the resync are not explored (the database is offline during resync)")
 	var rc c18Case
 	if r.Replaying(&rc) {
@@ -398,6 +415,21 @@ func TestVerifC18(t *testing.T) {
 		}
 	}
 	choose(0, nil)
+	if !r.Thorough() {
+		// quick: every single-document corpus, and pairs among the kinds that carry grants or get rejected
+		var kept [][]int
+		core := map[string]bool{"live": true, "grant-channel": true, "grant-role": true, "bad": true, "bad-role": true}
+		for _, corp := range corpora {
+			ok := len(corp) == 1
+			if len(corp) == 2 && core[c18Kinds[corp[0]].Name] && core[c18Kinds[corp[1]].Name] {
+				ok = true
+			}
+			if ok {
+				kept = append(kept, corp)
+			}
+		}
+		corpora = kept
+	}
 	idx := 0
 	for _, corp := range corpora {
 		for f1 := range c18Fns {
